@@ -73,6 +73,20 @@ def in_table(case):
     return True
 
 
+EVENT_CAP = 100
+
+
+def under_event_cap(n_in, n_out, n_ret, dmode):
+    """The v1 runtime raises Exception("Too many events.") when one generate_events call produces more
+    than 100 new events (runtime.py).  Measured on this snapshot: a passed rail costs 10-11 events, a
+    retrieval rail 3 per run, the dialog flows ~36 (general mode ~27), a refusal ~9 more; worst cases:
+    (2,2,2,flows) 93, (3,3,2,general) 100, (3,2,2,flows) and (3,3,0,flows) exceed the cap.  The cap is
+    outside C16's statement; the workload stays below it with a margin and reports it as an observation."""
+    if dmode == "general":
+        return n_in + n_out <= 5
+    return n_in + n_out <= 4
+
+
 def gen_cases(rng, tier):
     cases = []
     subs = subsets()
@@ -140,12 +154,21 @@ def gen_cases(rng, tier):
         rng.shuffle(cases)
         cases = cases[:700]
     if tier == "thorough":
+        # three rails in a category, kept below the v1 runtime's cap of 100 new events per generate call
+        # (see under_event_cap): 3 rails on one side only in flows mode, 3+2 in general mode
         vv3 = list(itertools.product("ARW", repeat=3))
         for s in subs:
-            for iv in vv3:
+            for v3 in vv3:
                 for bot in (None, BOT_TEXTS[1]):
-                    ov = [rng.choice("ARW") for _ in range(3)]
-                    cases.append(mk_case(3, 3, 2, rng.choice(("general", "flows")), s, iv, ov, USER_TEXTS[1], bot))
+                    v1 = [rng.choice("ARW")]
+                    v2 = [rng.choice("ARW") for _ in range(2)]
+                    cases.append(mk_case(3, 1, 2, "flows", s, v3, v1, USER_TEXTS[1], bot))
+                    cases.append(mk_case(1, 3, 2, "flows", s, v1, v3, USER_TEXTS[1], bot))
+                    if rng.random() < 0.5:
+                        cases.append(mk_case(3, 2, 1, "general", s, v3, v2, USER_TEXTS[1], bot))
+                    else:
+                        cases.append(mk_case(2, 3, 1, "general", s, v2, v3, USER_TEXTS[1], bot))
+    assert all(under_event_cap(c["n_in"], c["n_out"], c["n_ret"], c["dmode"]) for c in cases)
     return cases
 
 
@@ -178,20 +201,20 @@ def gen_convs(rng, tier):
                 for vi, first in enumerate(("accept", "in_rejects", "out_rejects")):
                     k3 = rng.choice(kinds)
                     turns = []
-                    for t, k in enumerate((k1, k2, k3)):
+                    for t, k in enumerate((k1, k2, k3) if tier == "thorough" else (k1, k2)):
                         tr = tmpl(k, t)
                         iv, ov = ["A"] * ni, ["A"] * no
                         if t == 0 and first == "in_rejects" and ni:
                             iv[-1] = "R"
                         if t == 0 and first == "out_rejects" and no:
                             ov[0] = "R"
-                        if t == 2 and rng.random() < 0.3:
+                        if t >= 1 and rng.random() < 0.3:
                             (iv if rng.random() < 0.5 or not no else ov)[0] = rng.choice("RW")
                         tr["iv"], tr["ov"] = iv, ov
                         turns.append(tr)
                     convs.append({"n_in": ni, "n_out": no, "n_ret": nr, "dmode": dm, "turns": turns})
                     # the same conversation carried by an explicit state object (options always given)
-                    if vi != 0 and "plain" not in (k1, k2, k3):
+                    if vi != 0 and "plain" not in (k1, k2) and (tier == "thorough" or "plain" != k3 and (len(convs) + vi) % 2 == 0):
                         convs.append({"n_in": ni, "n_out": no, "n_ret": nr, "dmode": dm, "turns": turns, "mode": "state"})
     if os.environ.get("VERIF_SMALL"):
         rng.shuffle(convs)
@@ -522,12 +545,24 @@ def run(tier, seed, replay=None):
     nontrivial = 0
     dist = {"in_table": 0, "out_of_table": 0, "blocked": 0, "rewritten": 0, "by_subset": {}, "forms": {"list": 0, "dict": 0, "absent": 0, "no_options": 0}}
     observations = {}
+    cap_obs = {"cap": EVENT_CAP, "max_new_events": 0, "cap_reached": [],
+               "note": "v1 runtime raises Exception('Too many events.') above 100 new events per generate call; measured: "
+                       "(3,3,2,flows) all-accept needs > 100 (raises), (3,2,2,flows) and (3,3,0,flows) raise with a rejecting "
+                       "last output rail, (3,3,2,general) reaches exactly 100; workload shapes are bounded by under_event_cap"}
     real_logs = []
     for case, obs, payload in items:
         if obs is None:
             continue
         if "driver_error" in obs:
             out.add_broken("correspondence:C16-e2e(driver)", json.dumps({"case": case, "error": obs["driver_error"], "tb": obs.get("tb")}))
+            continue
+        ne = obs.get("n_events")
+        if ne is not None and ne > cap_obs["max_new_events"]:
+            cap_obs.update({"max_new_events": ne, "shape_of_max": [case["n_in"], case["n_out"], case["n_ret"], case["dmode"]],
+                            "verdicts_of_max": [case["iv"], case["ov"]]})
+        if obs.get("exc") == "Exception" and "Too many events" in (obs.get("exc_msg") or ""):
+            # the runtime's safety cap, not a statement of C16: observed and reported, never judged
+            cap_obs["cap_reached"].append([case["n_in"], case["n_out"], case["n_ret"], case["dmode"], case["iv"], case["ov"]])
             continue
         if case.get("role", "assistant") != "assistant":
             k = "supplied bot message written with the documentation's role name `bot` (ignored by generate_async)"
@@ -653,6 +688,7 @@ def run(tier, seed, replay=None):
         "correspondence_disagreements": len(disagree),
         "oracle_violations": len(out.findings),
         "out_of_table_observations": observations,
+        "event_cap_observation": {**cap_obs, "cap_reached": cap_obs["cap_reached"][:5], "cap_reached_count": len(cap_obs["cap_reached"])},
     })
     out.notes.append({"out_of_table": observations})
     out.assumptions += [
